@@ -51,5 +51,7 @@ cc7d7ae C06
 6bbdeea+2a11884 C10
 150fd1a C16
 6bbdeea C01 C04
+abbd290 C07
+3fa8016 C07 C02
 L
 exit $bad
